@@ -345,8 +345,40 @@ func (c *Ctx) c15Protocol() {
 			if !ok {
 				return false
 			}
-			b, ok := m.Elem().Underlying().(*types.Basic)
-			return ok && b.Kind() == types.Bool
+			if b, ok := m.Elem().Underlying().(*types.Basic); ok && b.Kind() == types.Bool {
+				return true
+			}
+			// set idiom: map[K]struct{}
+			st, ok := m.Elem().Underlying().(*types.Struct)
+			return ok && st.NumFields() == 0
+		}
+		// member: the value of a lookup in the deleted set that tells membership (the bool element, or the comma-ok result of a set)
+		member := func(ev *pw.Event) *pw.Val {
+			if m, ok := ev.Recv.Type.Underlying().(*types.Map); ok {
+				if _, isBool := m.Elem().Underlying().(*types.Basic); !isBool {
+					if len(ev.Results) == 2 {
+						return ev.Results[1]
+					}
+					return nil
+				}
+			}
+			if len(ev.Results) > 0 {
+				return ev.Results[0]
+			}
+			return nil
+		}
+		// processed keys are remembered by the key itself: with a digest of it a different key with the same digest would be skipped
+		// (never deleted) and dropped from the index
+		for _, ev := range p.Events {
+			if (ev.Kind == pw.EvMapLookup || ev.Kind == pw.EvMapInsert) && isDeletedSet(ev.Recv) && ev.Key != nil {
+				k := ev.Key
+				for k != nil && k.Kind == pw.KConv {
+					k = k.Src
+				}
+				if k == nil || k.Kind != pw.KRangeVal && k.Kind != pw.KParam {
+					r.Bad("R15.3", name, "dedup-key", c.Pos(ev.Pos), "processed keys are not remembered by the key itself (but by "+ev.Key.String()+"): another key with the same digest is skipped without being deleted and dropped from the index", shortTrace(p))
+				}
+			}
 		}
 		var cutRes *pw.Val // result of cutKeys: the local map of cut lists
 		for _, ev := range p.Events {
@@ -475,7 +507,11 @@ func (c *Ctx) c15Protocol() {
 			if ev.Kind != pw.EvMapLookup || !isDeletedSet(ev.Recv) || len(ev.Results) == 0 {
 				continue
 			}
-			t, known := p.Truth(ev.Results[0])
+			mv := member(ev)
+			if mv == nil {
+				continue
+			}
+			t, known := p.Truth(mv)
 			if !known {
 				continue
 			}
@@ -519,6 +555,9 @@ func (c *Ctx) c15Protocol() {
 		// marks use the constant true
 		for _, ev := range p.Events {
 			if ev.Kind == pw.EvMapInsert && isDeletedSet(ev.Recv) {
+				if bt, isBool := ev.Value.Type.Underlying().(*types.Basic); !isBool || bt.Kind() != types.Bool && bt.Kind() != types.UntypedBool {
+					continue
+				}
 				if t, known := p.Truth(ev.Value); !known || !t {
 					r.Bad("R15.3", name, "mark-not-true", c.Pos(ev.Pos), "a processed key is not marked deleted (true)", shortTrace(p))
 				}
